@@ -207,8 +207,11 @@ class Gen:
             b = self.block(self.rng.randint(0, 2), depth + 1, tail) if self.rng.random() < 0.5 else ("skip",)
             return ("if", c, a, b)
         if r < 0.88 and depth < 2:
+            self.loops = getattr(self, "loops", 0) + 1
             c = ("opaque",) if self.rng.random() < 0.4 else ("and", ("opaque",), self.cond(1))
-            return ("while", c, self.block(self.rng.randint(1, 3), depth + 1, False))
+            w = ("while", c, self.block(self.rng.randint(1, 3), depth + 1, False))
+            self.loops -= 1
+            return w
         if tail and r < 0.97:
             return ("return", self.atom())
         return ("assign", self.var(), self.atom())
@@ -435,7 +438,9 @@ class EGen(Gen):
     def cond(self, depth=0):
         c = Gen.cond(self, depth)
         evs = self.evars("E") + self.evars("B")
-        if c[0] == "nonnil" and evs and self.rng.random() < 0.25:
+        # (not inside a loop: a check of an error variable in a loop whose call precedes the loop is not honoured
+        # by NilAway -- known finding F26 -- and would show up as a difference on every run)
+        if c[0] == "nonnil" and evs and self.rng.random() < 0.25 and not getattr(self, "loops", 0):
             return ("nonnil", self.rng.choice(evs))
         return c
 
